@@ -38,8 +38,11 @@ def gen(rng):
             q = rng.choice([0, 1])
             ops.append(f"pub p {topic} q={q} pid={pid if q else 0} tag=m{tag} n={n}")
         elif r < 0.9:
-            # outstanding QoS 2 publishes hold receive quota until PUBREL/PUBCOMP
+            # outstanding QoS 2 publishes hold receive quota until PUBREL/PUBCOMP; a retransmission (same id, DUP) of an
+            # outstanding one does not take another slot
             ops.append(f"pub p {topic} q=2 pid={pid} tag=m{tag}")
+            if rng.random() < 0.35:
+                ops.append(f"pub p {topic} q=2 pid={pid} d=1 tag=m{tag}")
             if rng.random() < 0.4:
                 ops.append(f"rel p {pid}")
         else:
